@@ -124,7 +124,7 @@ STORE_RULE = ("generated histories (4-15 write ops over 2-3 datasets, id pool 5,
 
 PROPS["C01"] = dict(
     modules=["Hub.Props.C01"],
-    gens=["store-c01"],
+    gens=["store-c01", "c05stale"],
     rule=STORE_RULE + "after every op: paged listings (page sizes 0,1,2,3 following the tokens), scoped / two-dataset / unscoped merged lookups, now and pinned "
          "to earlier commit instants (±1 ns); non-trivial = at least 3 stored versions and 2 lookups; distinct = distinct histories",
     trusted=STORE_TRUST,
@@ -177,7 +177,7 @@ PROPS["C03"] = dict(
 
 PROPS["C06"] = dict(
     modules=["Hub.Props.C06"],
-    gens=["store-c06"],
+    gens=["store-c06", "c05stale"],
     rule=STORE_RULE + "after every op: lookups and relationship queries (both directions, paged and unpaged) pinned to the commit instant of a random earlier op, that instant -1 and +1; "
          "the model and the spec evaluate the pinned query on the history, so a later write that changes a pinned answer is a mismatch; non-trivial = at least 3 versions and 2 queries",
     trusted=STORE_TRUST + ["wall-clock monotonicity (commit times strictly increase)"],
@@ -271,8 +271,9 @@ PROPS["C20"] = dict(
 
 PROPS["C05"] = dict(
     modules=["Hub.Props.C05"],
-    gens=["c05"],
-    rule="child processes with 4-8 concurrent writers (single-dataset batches, some rejected; two-dataset transactions naming their datasets in both orders and minting new identifiers), "
+    gens=["c05", "c05stale"],
+    rule="(c05.stale) a forced schedule: a batch or a two-dataset transaction is started while another writer holds the dataset's write lock, that writer commits and releases, the parked "
+         "writer commits after it — listing, scoped lookup (newest commit time) and the feed's recorded times must agree on the parked writer's version; child processes with 4-8 concurrent writers (single-dataset batches, some rejected; two-dataset transactions naming their datasets in both orders and minting new identifiers), "
          "readers and a dataset creator/deleter, GOMAXPROCS 1/4/16, a watchdog (a hang is a deadlock), then the final state is checked: listing = last feed entry per id = scoped lookup, every "
          "acknowledged write is in the feed in its client's order, recorded times never decrease along a feed; non-trivial = every run",
     trusted=["the Go scheduler and sync.Mutex/RWMutex; badger transactions; the interleavings actually sampled"],
